@@ -24,9 +24,9 @@ func SetLanguagesErrsMap(m map[string]zconst.LangMap, defaultLang string, opts .
 	}
 
 	conf.IssueFormatter = func(e *internals.ZogIssue, ctx internals.Ctx) {
-		lang := ctx.Get(langKey)
-		if lang != nil {
-			langM, ok := m[lang.(string)]
+		// a value that is not a string names no language
+		if lang, ok := ctx.Get(langKey).(string); ok {
+			langM, ok := m[lang]
 			if ok {
 				conf.NewDefaultFormatter(langM)(e, ctx)
 				return
